@@ -382,7 +382,9 @@ def _worker(args):
         import importlib
         import_target()
         mod = importlib.import_module(modname)
+        t0 = time.time()
         acc = mod.run_shard(desc, seed, tier)
+        acc.extra.setdefault("shard_wall_s", {})[_canon(desc)[:80]] = round(time.time() - t0, 1)
         return ("ok", acc)
     except BaseException:
         return ("err", traceback.format_exc())
